@@ -30,14 +30,65 @@ except Exception:                                   # pragma: no cover
 from rig.links import Links  # noqa: E402
 
 
+class IdentityResource(object):
+    """A user-defined resource identifier compared by identity (no __eq__ / __hash__ of its own)."""
+
+    def __init__(self, n):
+        self.n = n
+
+    def __repr__(self):
+        return "IdentityResource(%d)" % self.n
+
+
+class ValueResource(object):
+    """A user-defined resource identifier compared by value."""
+
+    def __init__(self, n):
+        self.n = n
+
+    def __eq__(self, other):
+        return isinstance(other, ValueResource) and other.n == self.n
+
+    def __ne__(self, other):
+        return not self == other
+
+    def __hash__(self):
+        return hash(("ValueResource", self.n))
+
+    def __repr__(self):
+        return "ValueResource(%d)" % self.n
+
+
+def resource_namer(kind):
+    """How the integer resource numbers of the JSON description become the library's resource identifiers."""
+    if kind == "identity":             # one shared instance per resource
+        table = {}
+        return lambda r: table.setdefault(r, IdentityResource(r))
+    if kind == "value":                # a new (equal) instance at every mention
+        return lambda r: ValueResource(r)
+    if kind == "str":
+        return lambda r: "res%d" % r
+    return lambda r: r
+
+
+def resource_number(r):
+    """Back from a resource identifier to the number used in the JSON description."""
+    if isinstance(r, (IdentityResource, ValueResource)):
+        return r.n
+    if isinstance(r, str):
+        return int(r[3:])
+    return r
+
+
 def build(c):
     m = c["machine"]
-    machine = Machine(m["w"], m["h"], chip_resources=OrderedDict((r, q) for r, q in m["res"]),
+    R = resource_namer(c.get("reskind", "int"))
+    machine = Machine(m["w"], m["h"], chip_resources=OrderedDict((R(r), q) for r, q in m["res"]),
                       chip_resource_exceptions=OrderedDict(
-                          (tuple(xy), OrderedDict((r, q) for r, q in rs)) for xy, rs in m["exc"]),
+                          (tuple(xy), OrderedDict((R(r), q) for r, q in rs)) for xy, rs in m["exc"]),
                       dead_chips=set(tuple(xy) for xy in m["dead"]),
                       dead_links=set((x, y, Links(l)) for x, y, l in m.get("dead_links", [])))
-    vres = OrderedDict((v, OrderedDict((r, q) for r, q in rq)) for v, rq in c["vres"])
+    vres = OrderedDict((v, OrderedDict((R(r), q) for r, q in rq)) for v, rq in c["vres"])
     nets = [Net(s, list(sinks), w) for s, sinks, w in c["nets"]]
     cs = []
     for k in c["constraints"]:
@@ -46,10 +97,10 @@ def build(c):
         elif k[0] == "same":
             cs.append(SameChipConstraint(list(k[1])))
         elif k[0] == "reserve":
-            cs.append(ReserveResourceConstraint(k[1], slice(k[2], k[3]),
+            cs.append(ReserveResourceConstraint(R(k[1]), slice(k[2], k[3]),
                                                 None if k[4] is None else tuple(k[4])))
         elif k[0] == "align":
-            cs.append(AlignResourceConstraint(k[1], k[2]))
+            cs.append(AlignResourceConstraint(R(k[1]), k[2]))
         else:
             cs.append(RouteEndpointConstraint(k[1], Routes(k[2])))
     return vres, nets, machine, cs
@@ -256,9 +307,32 @@ def run_stress(c, per_cfg_s):
     return dict(out=out, aux={})
 
 
+def run_large(c, per_cfg_s):
+    """Large problems: the deterministic placers (and the C-kernel annealer at low effort) on fresh objects."""
+    out = OrderedDict()
+    runs = [("seq", lambda a: sequential.place(*a)), ("bf", lambda a: breadth_first.place(*a)),
+            ("hilbert", lambda a: hilbert.place(*a)), ("rcm", lambda a: rcm.place(*a)),
+            ("rand_real", lambda a: rand.place(*a, random=pyrandom.Random(c["seed"])))]
+    if CKernel is not None and c.get("large_sa"):
+        runs.append(("sa_c", lambda a: sa_algorithm.place(*a, effort=c["effort"], random=pyrandom.Random(c["seed"]),
+                                                          kernel=CKernel)))
+    for name, fn in runs:
+        args = build(c)
+        out[name] = guarded(lambda: fn(args), per_cfg_s)
+    return dict(out=out, aux={})
+
+
+def machine_inventory():
+    """What the class Machine defines (the model mirrors __contains__, __getitem__, __setitem__, __iter__ and
+    copy; a new special method changes what `list(machine)`, `machine == x`, `len(machine)` ... do)."""
+    return sorted(k for k, v in Machine.__dict__.items() if not k.startswith("__") or callable(v))
+
+
 def run_case(c, per_cfg_s):
     if c.get("mode") == "stress":
         return run_stress(c, per_cfg_s)
+    if c.get("mode") == "large":
+        return run_large(c, 6 * per_cfg_s)
     out = OrderedDict()
     aux = {}
 
@@ -350,7 +424,7 @@ def run_case(c, per_cfg_s):
             pl, mach, l2v = log.snapshot
             aux["sal_state"] = dict(
                 placements=[[log.vid(v), list(xy)] for v, xy in pl.items()],
-                machine=[[list(xy), sorted([r, q] for r, q in d.items())] for xy, d in sorted(mach.items())],
+                machine=[[list(xy), sorted([resource_number(r), q] for r, q in d.items())] for xy, d in sorted(mach.items())],
                 l2v=[[list(xy), [log.vid(v) for v in vs]] for xy, vs in sorted(l2v.items())])
     # 11 object reuse: the rig objects (vertices_resources, nets, Machine, constraint objects) are built ONCE
     #    and several placers run one after the other on the same objects
@@ -379,6 +453,9 @@ def run_case(c, per_cfg_s):
 if __name__ == "__main__":
     payload = json.load(sys.stdin)
     signal.signal(signal.SIGALRM, implutil._alarm)
+    if payload.get("inventory"):
+        json.dump(dict(machine=machine_inventory()), sys.stdout)
+        sys.exit(0)
     if payload.get("levels_upto"):
         # the level hilbert_chip_order picks for a machine of max dimension n, read off by replacing the curve
         # generator (from outside) with the identity on its argument
